@@ -558,19 +558,12 @@ fn explore(src: &str, prog: &crate::ast::Program, bounds: &Bounds, case: &J, acc
 /// suppresses exactly that class and nothing else.
 fn known_class(p: &crate::ast::Program) -> Option<&'static str> {
     use crate::ast::*;
-    fn has_cond(v: &[Inline]) -> bool {
-        v.iter().any(|i| matches!(i, Inline::Cond(..)))
-    }
     fn has_seq(v: &[Inline]) -> bool {
         v.iter().any(|i| matches!(i, Inline::Seq(..)))
     }
     fn block(b: &Block, found: &mut Option<&'static str>) {
         if let Some(g) = &b.group {
             for c in &g.choices {
-                let b_cond = c.bracket.as_ref().map(|b| has_cond(b)).unwrap_or(false);
-                if has_cond(&c.start) || has_cond(&c.end) || b_cond {
-                    found.get_or_insert("known-class:choice-text-inline-conditional");
-                }
                 if has_seq(&c.start) || (c.bracket.is_none() && has_seq(&c.end)) {
                     found.get_or_insert("known-class:choice-start-sequence");
                 }
